@@ -938,7 +938,15 @@ func sizeFamilies(r *rand.Rand, fam string, n int) []string {
 	ks := []string{}
 	switch fam {
 	case "caterpillar-binary":
-		ks = genKeys(r, "comb", n, 0)
+		// (not through genKeys: sizes are not modelled by TLC, the height may be large)
+		for i := 0; i < n; i++ {
+			k := make([]byte, i+1)
+			for j := 0; j < i; j++ {
+				k[j] = 'a'
+			}
+			k[i] = 'b'
+			ks = append(ks, string(k))
+		}
 	case "long-steps":
 		k := []byte{}
 		for i := 0; i < n; i++ {
